@@ -5,12 +5,12 @@ go 1.23
 require github.com/taskctl/taskctl v0.0.0
 
 require (
+	github.com/briandowns/spinner v0.0.0-20200215035459-6dc224009eae
 	github.com/sirupsen/logrus v1.4.2
 	pgregory.net/rapid v1.3.0
 )
 
 require (
-	github.com/briandowns/spinner v0.0.0-20200215035459-6dc224009eae // indirect
 	github.com/fatih/color v1.7.0 // indirect
 	github.com/logrusorgru/aurora v0.0.0-20191017060258-dc85c304c434 // indirect
 	github.com/mattn/go-colorable v0.1.4 // indirect
